@@ -461,13 +461,18 @@ func runPair(m map[string]any) Result {
 	if err != nil {
 		return Result{Class: "harness", Detail: err.Error()}
 	}
-	b1 := &builder{}
+	carriers := decodeCarriers(m["carriers"])
+	strict, _ := m["strict"].(bool)
+	b1 := &builder{carriers: carriers}
 	d1 := b1.build(doc)
+	if b1.bad {
+		return Result{OK: true, Class: "skip-carrier", Pinned: false}
+	}
 	c1 := doSearch(lhs, d1)
 	if r := genericChecks(c1, doc, d1, b1, true); r != nil {
 		return *r
 	}
-	b2 := &builder{}
+	b2 := &builder{carriers: carriers}
 	d2 := b2.build(doc)
 	c2 := doSearch(rhs, d2)
 	if r := genericChecks(c2, doc, d2, b2, true); r != nil {
@@ -499,5 +504,10 @@ func runPair(m map[string]any) Result {
 			return r
 		}
 	}
-	return Result{OK: true, Pinned: pin, GotS: c1.out.show()}
+	if strict && !pin && !sameOutcome(c1.out, c2.out) {
+		// the value is outside what the model pins, but the two texts denote
+		// the same expression: they must agree
+		return fail("differs", c2.out, "the two expressions disagree: "+c1.out.show()+" vs "+c2.out.show())
+	}
+	return Result{OK: true, Pinned: pin || strict, GotS: c1.out.show()}
 }
